@@ -1,4 +1,4 @@
-CONSTANTS KeyMode = "exact" MaxAssign = 14 MaxSaves = 3 Pairs = FALSE Wide = TRUE EmitReplay = TRUE
+CONSTANTS KeyMode = "exact" NBooks = 1 PalKind = "full" MaxImport = 0 MaxAssign = 14 MaxSaves = 3 Pairs = FALSE Wide = TRUE EmitReplay = TRUE
 SPECIFICATION MCSpec
 INVARIANTS Emit Faithful DimsKept FaithfulFile NoMerge NoGrowth StableSizes WellFormed
 CHECK_DEADLOCK FALSE
